@@ -400,12 +400,12 @@ pub fn run_c15(ctx: &mut Ctx) {
         };
         let len = if matches!(b, Backend::Cadical) { rng.range(5, 60) } else { rng.range(4, 16) };
         let ops = gen_sat_history(&mut rng, len);
-        eval_sat_history(ctx, b, &ops);
+        crate::report::guarded(ctx, |ctx| eval_sat_history(ctx, b, &ops));
         if rng.pct(if matches!(b, Backend::Cadical) { 10 } else { 25 }) {
             let fam = *rng.pick(&["er-small", "union", "lattice"]);
             let case = gen_case(fam, i, ctx.seed, &lim);
             if case.abs.n <= 7 {
-                eval_real_stream(ctx, b, &case, &mut rng);
+                crate::report::guarded(ctx, |ctx| eval_real_stream(ctx, b, &case, &mut rng));
             }
         }
     }
@@ -775,7 +775,7 @@ pub fn run_c16(ctx: &mut Ctx) {
         ctx.case_begin(&json!({"exchange": i}));
         let mut rng = Rng::from_path(&[ctx.seed, 16, 1, i]);
         let ec = gen_exchange(ctx, &mut rng, i / ctx.nshards as u64);
-        judge_exchange(ctx, &ec, timeout);
+        crate::report::guarded(ctx, |ctx| judge_exchange(ctx, &ec, timeout));
     }
     for i in 0..n_streams {
         if !ctx.mine(i) {
@@ -793,7 +793,7 @@ pub fn run_c16(ctx: &mut Ctx) {
         if case.abs.n > 8 {
             continue;
         }
-        c16_real_streams(ctx, &case, &mut rng, None);
+        crate::report::guarded(ctx, |ctx| c16_real_streams(ctx, &case, &mut rng, None));
     }
 }
 
@@ -1234,7 +1234,7 @@ pub fn run_c17(ctx: &mut Ctx) {
             continue;
         }
         let which = rng.weighted(&[10, 2, 4, 1]);
-        match which {
+        crate::report::guarded(ctx, |ctx| match which {
             0 | 1 => {
                 if case.pres.is_usize() {
                     if let Ok(b) = build_usize(&case.pres) {
@@ -1258,7 +1258,7 @@ pub fn run_c17(ctx: &mut Ctx) {
                     c17_cli(ctx, &case, &mut rng, None);
                 }
             }
-        }
+        });
     }
 }
 
